@@ -399,6 +399,8 @@ func runCase(run *evid.Run, idx int) {
 	// the listing itself
 	op := &model.Op{Kind: c.Kind, Repo: listRepo, StartAfter: c.Start, StopAfter: c.Stop, Digest: subject, MaxItems: 3*len(want) + 50}
 	env := model.NewEnv(reg)
+	// without injected faults the sequence is ranged over a second time and has to repeat itself
+	env.Reiterate = c.Fault == ""
 	var out *model.Outcome
 	run.Eval(1)
 	if !run.Case("total/"+c.Kind, c, func() { out = env.Exec(op) }) {
